@@ -7,7 +7,7 @@ one() { pid=$1; c=$2; wt=/root/scratch/revert_$c
   git -C /repo worktree remove --force $wt >/dev/null 2>&1
   git -C /repo worktree add --detach $wt HEAD >/dev/null 2>&1 || return
   if git -C $wt revert --no-commit $c >/dev/null 2>&1; then
-    out=$(OUTRANK_REPO=$wt ./check $pid --tier quick 2>&1 | grep -E "^(VIOLATION|KNOWN-FINDING|C[0-9]+ tier)")
+    out=$(OUTRANK_REPO=$wt ./check $pid --tier quick 2>&1 | grep -E "^(VIOLATION|KNOWN-FINDING|C[0-9]+ tier)" | sed "s/^KNOWN-FINDING: property=\([A-Z0-9]*\).*/KNOWN-FINDING(\1)/")
   else out="REVERT-CONFLICT (later fixes touch the same lines)"; fi
   echo "$pid $c: $(echo "$out" | tr '\n' ' ' | cut -c1-230)" | tee .cache/revert_$c.txt
   git -C $wt revert --abort >/dev/null 2>&1; git -C /repo worktree remove --force $wt; }
